@@ -172,6 +172,17 @@ add("C08", "CH",
     "Type names from a menu of 6; polling histories, Any unpacking and the operations client itself are api_core/gRPC "
     "behaviour and outside the claim.")
 
+add("C15", "CH (+ concrete AST diff)",
+    "CrossHair (z3) enumeration with solver-proved exhaustion over the real API.build + gapic_metadata / "
+    "legacy_flattened_fields; concrete AST diff of emitted metadata and fix-up table against the emitted package",
+    "For ALL transport sets, internal-mode settings and allow-list subsets the metadata lists every service/RPC once per "
+    "implied client kind with the class and method names the templates use; for ALL required-bit patterns the legacy "
+    "field order is required-first then declaration order. Per program the named classes/methods exist in the emitted "
+    "modules and METHOD_TO_PARAMS equals the descriptors (concrete).",
+    "DESIGN.md section 5 C15",
+    "2 services, 4 RPCs (keyword-named and transport-unsafe included), 6 request fields; existence in the emitted package "
+    "is established by AST, not by import.")
+
 PENDING = {}
 
 
